@@ -597,7 +597,12 @@ func scenarios14() []dualrun.Scenario {
 		// (client_information, which exists only serverbound) immediately ----
 		{Name: "backend/roundtrip/1writer", Quick: 3, Thorough: U, FreeQuick: 200, FreeThorough: 3000, Body: func(e *dualrun.Env) {
 			h := new14x(e, false, true)
-			e.Go("w1", func() { h.write('P', 1, 1, true); h.write('K', 1, 2, true); h.write('P', 1, 3, true); h.write('K', 1, 4, true) })
+			e.Go("w1", func() {
+				h.write('P', 1, 1, true)
+				h.write('K', 1, 2, true)
+				h.write('P', 1, 3, true)
+				h.write('K', 1, 4, true)
+			})
 			e.Go("st", func() { h.setState("SwitchSessionHandler", true); h.setState("SwitchSessionHandler", false) })
 			e.AtEnd(h.finish)
 		}},
